@@ -989,7 +989,7 @@ pub fn run_c06(id: &str, tier: &str, seed: u64) -> i32 {
     let t0 = Instant::now();
     let thorough = tier == "thorough";
     use Profile::*;
-    let rules = ["R06a", "R06b", "R06c", "R06d"];
+    let rules = ["R06a", "R06b", "R06c", "R06d", "R06e"];
     let agg = campaign(id, &rules, seed, thorough, &[Hostile, Mixed, Crashy, Reject], if thorough { 1_500_000 } else { 80_000 }, if thorough { 1200 } else { 60 });
     let mut extra = json!({});
     let mut e2e_viol: Vec<(String, u64, String)> = vec![];
